@@ -266,7 +266,7 @@ impl<R: Rng, M: IsingManager> QmcIsingGraph<R, M> {
             );
         }
 
-        self.cutoff = max(self.cutoff, manager.get_n() + manager.get_n() / 2);
+        self.cutoff = max(self.cutoff, manager.get_n() + manager.get_n() / 2 + 1);
         self.op_manager = Some(manager);
         self.state = Some(state);
     }
@@ -783,7 +783,7 @@ where
             }
         });
 
-        self.cutoff = max(self.cutoff, manager.get_n() + manager.get_n() / 2);
+        self.cutoff = max(self.cutoff, manager.get_n() + manager.get_n() / 2 + 1);
 
         self.rng = Some(rng);
         self.op_manager = Some(manager);
